@@ -292,6 +292,9 @@ func checkC08PacketConn(c c08Case, o *vstat.Outcome) *vstat.Violation {
 	if !corrupted && !errors.Is(last.err, io.EOF) {
 		return vstat.Viol("clean-end-not-eof", "stream ended cleanly but reader reported %v", last.err)
 	}
+	if sr.maxReq > c.Max && sr.maxReq > 4 {
+		return vstat.Viol("over-limit-body-requested", "the rx pump asked the stream for %d bytes although the packet limit is %d (prefix %s)", sr.maxReq, c.Max, c.Corrupt)
+	}
 	if corrupted && c.Corrupt != "truncate" && errors.Is(last.err, io.EOF) && intact < len(frames) {
 		return vstat.Viol("corruption-reported-as-eof", "corrupted prefix (%s) reported as clean EOF", c.Corrupt)
 	}
@@ -373,6 +376,9 @@ func checkC08Session(c c08Case, o *vstat.Outcome) *vstat.Violation {
 			return vstat.Viol("clean-end-not-eof", "clean end reported as %v", err)
 		}
 		break
+	}
+	if sr.maxReq > c.Max && sr.maxReq > 4 {
+		return vstat.Viol("over-limit-body-requested", "RecvMsg asked the stream for %d bytes although the message limit is %d (prefix %s)", sr.maxReq, c.Max, c.Corrupt)
 	}
 	return nil
 }
